@@ -126,8 +126,9 @@ Fault(f) == CASE f = "e5"   -> [op |-> "ERROR", e |-> C(5), col |-> TRUE]
               [] f = "rwg"  -> [op |-> "RETURN", n |-> 0, col |-> TRUE]
               [] f = "nwf"  -> [op |-> "NEXT", vs |-> <<>>, col |-> TRUE]
               [] f = "ood"  -> [op |-> "READ", vs |-> <<"J">>, col |-> TRUE]
-Faults == {"e5", "e200", "ovf", "ul", "rwg", "nwf", "ood"}
-Code(f) == CASE f = "e5" -> 5 [] f = "e200" -> 200 [] f = "ovf" -> 6 [] f = "ul" -> 8 [] f = "rwg" -> 3 [] f = "nwf" -> 1 [] f = "ood" -> 4
+              [] f = "dz"   -> Let("J", B("\\", C(7), V("I")))               \* I = 0: Division by zero raised inside an expression
+Faults == {"e5", "e200", "ovf", "ul", "rwg", "nwf", "ood", "dz"}
+Code(f) == CASE f = "e5" -> 5 [] f = "e200" -> 200 [] f = "ovf" -> 6 [] f = "ul" -> 8 [] f = "rwg" -> 3 [] f = "nwf" -> 1 [] f = "ood" -> 4 [] f = "dz" -> 11
 PrtErr == <<Prt([k |-> "err"]), Prt([k |-> "erl"])>>
 ErrProg(f, h) ==
     LET body == <<Ln(15, <<Let("A", C(1))>>),
@@ -166,7 +167,10 @@ ErrProg(f, h) ==
               PE(<<Ln(10, <<[op |-> "ONERR", n |-> 100, col |-> TRUE]>>)>> \o body \o
                  <<Ln(100, PrtErr)>>,
                  [kind |-> "err", expect |-> <<1, c, 20>>, endk |-> "error", code |-> 19, line |-> -1])
-ErrFamily == {ErrProg(f, h) : f \in Faults, h \in {"none", "next", "line", "retry", "inh", "off", "fall"}}
+\* (an expression fault without a handler is soft-handled by the interpreter: outside the fragment; with "retry" the
+\*  handler's counter I would repair the division)
+ErrFamily == ({ErrProg(f, h) : f \in Faults, h \in {"none", "next", "line", "retry", "inh", "off", "fall"}}
+               \ {ErrProg("dz", h) : h \in {"none", "retry"}})
               \cup {PE(<<Ln(10, <<Prt(C(1)), [op |-> "RESUME", w |-> "0", n |-> 0, col |-> TRUE]>>)>>,
                        [kind |-> "err", expect |-> <<1>>, endk |-> "error", code |-> 20, line |-> 10])}
 (* ---------------- C38: event traps (explored under every interleaving of occurrences) ---------------- *)
@@ -201,8 +205,9 @@ FnDefs(v) == CASE v = 1 -> <<DefFn("FNA", <<"A">>, V("A"))>>
                [] v = 6 -> <<>>
                [] v = 7 -> <<DefFn("FNB", <<"A">>, B("+", V("A"), C(1))), DefFn("FNA", <<"A">>, B("*", Call("FNB", <<B("*", V("A"), C(2))>>), C(10)))>>
                [] v = 8 -> <<DefFn("FNA", <<"A">>, V("A"))>>
+               [] v = 9 -> <<DefFn("FNA", <<"A", "A">>, B("*", V("A"), C(3)))>>           \* the same variable twice in the parameter list
 FnCall(v, x) == CASE v \in {1, 2, 7} -> Call("FNA", <<C(x)>>)
-                  [] v = 3 -> Call("FNA", <<C(1), C(x)>>)
+                  [] v \in {3, 9} -> Call("FNA", <<C(1), C(x)>>)
                   [] v = 4 -> Call("FNK%", <<C(x)>>)
                   [] v = 5 -> Call("FNR", <<C(x)>>)
                   [] v = 6 -> Call("FNZ", <<C(x)>>)
@@ -215,6 +220,7 @@ FnOutcome(v, x) == CASE v = 1 -> <<"val", x>>
                      [] v = 6 -> <<"err", 18>>
                      [] v = 7 -> <<"val", (2 * x + 1) * 10>>
                      [] v = 8 -> <<"val", 5 + x>>
+                     [] v = 9 -> <<"val", 3 * x>>                                         \* the later argument is bound last
 FnProg(v, x) ==
     LET o == FnOutcome(v, x) IN
     PE(<<Ln(5, <<[op |-> "ONERR", n |-> 100, col |-> TRUE]>>),
@@ -228,7 +234,7 @@ FnProg(v, x) ==
         expect |-> (IF FnDefs(v) = <<>> THEN <<0>> ELSE <<>>) \o
                    (IF o[1] = "val" THEN <<o[2], 5, 7>> ELSE <<o[2], 5, 7, 5, 7>>),
         endk |-> "end", code |-> 0, line |-> 0])
-FnFamily == {FnProg(v, x) : v \in 1..8, x \in {0, 1, -3, 40000}}
+FnFamily == {FnProg(v, x) : v \in 1..9, x \in {0, 1, -3, 40000}}
 (* ---------------- C23: nothing survives CLEAR / RUN ---------------- *)
 ClearOrRun(r) == IF r = "clear" THEN <<Op("CLEAR")>> ELSE <<[op |-> "RUN", n |-> 300, col |-> TRUE]>>
 \* what: which piece of state is established before the reset and probed after it.  With RUN the probe lives at line 300.
